@@ -10,7 +10,38 @@ import urlgen
 ID = "C05"
 LEAN_MODULE = "UralModel.Props.C05"
 THEOREMS = [
+    "Ural.Props.C05.normParts_glue",
+    "Ural.Props.C05.normalize_host_deletion_only",
+    "Ural.Props.C05.normalize_host_absent",
+    "Ural.Props.C05.hostDel_no_amp",
+    "Ural.Props.C05.normalize_port",
+    "Ural.Props.C05.resolvedPath_eq",
+    "Ural.Props.C05.normalize_path_deletion",
+    "Ural.Props.C05.normalize_path_once",
+    "Ural.Props.C05.normalize_path_sublist",
+    "Ural.Props.C05.normalize_query_sublist",
+    "Ural.Props.C05.normalize_query_subsequence",
+    "Ural.Props.C05.option_sort_query_off",
+    "Ural.Props.C05.option_strip_authentication_off",
+    "Ural.Props.C05.option_strip_trailing_slash_off",
+    "Ural.Props.C05.option_strip_index_off",
+    "Ural.Props.C05.option_strip_protocol_off",
+    "Ural.Props.C05.option_strip_irrelevant_subdomains_off",
+    "Ural.Props.C05.option_strip_fragment_off",
+    "Ural.Props.C05.option_normalize_amp_off",
+    "Ural.Props.C05.option_fix_common_mistakes_off",
+    "Ural.Props.C05.option_infer_redirection_off",
     "Ural.Props.C05.normalize_unparseable_identity",
+    "Ural.Props.C05.normalize_parseable",
+    "Ural.Props.C05.normalize_total",
+    "Ural.Props.C05.normalize_platform_partial",
+    "Ural.Props.C05.fullPlatform_false",
+    "Ural.Normalize.subdomainSub_labels",
+    "Ural.Normalize.ampSuffixSub_del",
+    "Ural.Normalize.AmpDel.once",
+    "Ural.Normalize.stripIndex_spec",
+    "Ural.Normalize.sortQsl_perm",
+    "Ural.Normalize.delSubB_iff",
 ]
 TABLE_OBLIGATIONS = [
     "Ural.Props.C05.irrelevantSubdomain_pattern",
@@ -25,11 +56,42 @@ TABLE_OBLIGATIONS = [
     "Ural.Props.C05.sLambda_probes",
     "Ural.Props.C05.queryCombosCallable_eq",
 ]
-RULE = "stage 1 carrier"
-EXHAUSTIVE = {}
-TRUSTED = []
-ASSUMPTIONS = []
-UNPROVED = ""
+RULE = (
+    "A case is (URL, option setting) or one call of a small function of the module. URLs: the regression "
+    "corpus (minimal inputs of D16, D18, D20, D21, D23 and of the defects fixed since), unparseable and "
+    "empty-ish strings, redirect-carrying and facebook/youtube URLs, each with the defaults and with every "
+    "option switched alone; then the full grid of the ten documented options (2^9 x 3) x quoted on a sample "
+    "of bases; then seeded random URLs (hosts built from irrelevant / look-alike / language labels, index "
+    "and AMP path tails, tracking / plain / escaped query items incl. '&amp;' separators, routing and plain "
+    "fragments, userinfo, ports, odd schemes) each under every row of a strength-2 covering array over all "
+    "twelve options (incl. platform_aware); then the structure sweep of C01. Model vs implementation: the "
+    "string handed to the parser (after infer_redirection and cleaning), the unsplit=False tuple and the "
+    "final string; for the small functions the real regex / code vs the hand scanner. Oracle: the Reading "
+    "of DESIGN §6 C05 on the implementation, written with urllib.parse and ural's public functions. "
+    "Non-trivial = a parseable URL on which the output differs from the input; distinct = distinct (url, options)."
+)
+EXHAUSTIVE = {
+    "quick": "all 2^9 x 3 x 2 (quoted) option settings on 5 bases; every option switched alone on every corpus / unparseable / redirect / platform URL; every host of <= 2 labels over the 13-label irrelevant/look-alike alphabet x 4 bases x both regex variants through the subdomain scanner; every irrelevant/plain item x amp x 5 hosts x 2 filters through should_strip_query_item; every permutation of <= 3 of 8 items through the sort",
+    "thorough": "the same with 40 bases, <= 3 labels, permutations of <= 4 items",
+}
+TRUSTED = [
+    "Lean 4 kernel; axioms audited",
+    "urlsplit and the SplitResult accessors are CPython: the harness parses the prepared string with the real parser and ships the components to the model; urlunsplit is modelled by hand (compared on every run)",
+    "attempt_to_decode_idna (CPython idna codec) is the abstract parameter `puny`; the driver uses a per-case table computed by the real codec",
+    "hand-written model Model/Normalize.lean (+ Model/UrlParts, Model/Quote, Model/Redirect for infer_redirection), tied to the code by differential execution; regexes with look-around are hand scanners tied to the regenerated pattern strings (obligation) and to the real compiled regexes on regenerated probe lists (obligation) and on every case of the stream",
+    "the platform_aware branch (facebook / youtube parsers) is not modelled: abstract `platform`, the harness ships the rewritten URL's components",
+    "str.lower / str.strip / \\d on non-ASCII characters outside the model alphabet (DESIGN §4) are not modelled",
+]
+ASSUMPTIONS = [
+    "platform_aware=True: the deletion-only clauses are claimed (theorem normalize_platform_partial, oracle) only where the facebook/youtube branch leaves the URL alone; where it fires only totality and correspondence are checked",
+    "paths of URLs without authority that do not start with '/' (mailto:x, custom:a/b) are outside the path clause of the oracle",
+]
+UNPROVED = (
+    "platform_aware=True where the facebook/youtube branch rewrites the URL: FullPlatform is false "
+    "(fullPlatform_false); explored by correspondence only. The theorems are about "
+    "Parsed records; that urlsplit produces them is CPython (shipped per case). Totality is by the model's "
+    "type (no error value); that the implementation never raises is checked by correspondence and the oracle."
+)
 
 # minimal inputs of the §7 defects of this property (D16, D18, D20, D21, D23)
 CORPUS = [
@@ -95,7 +157,7 @@ def cases(rng, tier):
         yield c
     # the full 2^9 x 3 x quoted grid on a sample of bases
     grid = list(nc.full_grid())
-    nfull = 6 if tier == "quick" else 40
+    nfull = 5 if tier == "quick" else 40
     fixed = ["HTTP://User:Pw@WWW.M.Example.com:8080/a/../B/index.html?utm_source=x&b=2&a=1&amp;ref=fb#top",
              "amp-www2.a.com:80/x/amp/?s=12&z=%41&y#/route"]
     for i in range(nfull):
@@ -129,27 +191,362 @@ def impl(case):
     return nc.impl(_url(case), case["opts"])
 
 
+# ---------------------------------------------------------------------------------------
+# the oracle: DESIGN §6 C05 Reading on the implementation (urllib.parse + ural public API)
+# ---------------------------------------------------------------------------------------
+import re as _re
+
+_CTRL = _re.compile("[\x00-\x1f\x7f-\x9f]")
+_PROTO = _re.compile(r"^(?:[a-zA-Z]{1,64}:)?//")
+_AMP_SEP = _re.compile(r"&amp(?:%3B|;)", _re.I)
+_IRR_LABEL = _re.compile(r"^(?:www[0-9]?|mobile|m)$", _re.I)
+
+
+def _pct(s):
+    from urllib.parse import unquote_to_bytes
+
+    return unquote_to_bytes(s)
+
+
+def _idna(label):
+    if label[:4].lower() == "xn--":
+        try:
+            return (label[:4].lower() + label[4:]).encode("utf8").decode("idna")
+        except UnicodeError:
+            return label
+    return label
+
+
+def _decode_host(h):
+    return ".".join(_idna(l) for l in h.split("."))
+
+
+def _items(q):
+    out = []
+    for it in q.split("&"):
+        if "=" in it:
+            k, v = it.split("=", 1)
+            out.append((k, v))
+        else:
+            out.append((it, None))
+    return out
+
+
+def _dec_item(it):
+    return (_pct(it[0]), None if it[1] is None else _pct(it[1]))
+
+
+def _irrelevant_item(raw, amp, host):
+    """the item is in the irrelevant family of the *tables* of the module (data), whatever view of
+    its key/value is taken (as written, fully decoded, safely unquoted): demands less"""
+    import importlib
+
+    n = importlib.import_module("ural.normalize_url")
+    from ural.quote import safely_unquote_query_item as su
+    from urllib.parse import unquote
+
+    views = set()
+    k, v = raw
+    for f in (lambda x: x, lambda x: unquote(x, errors="replace"), su):
+        views.add((f(k), None if v is None else f(v)))
+    rx = n.IRRELEVANT_QUERY_AMP_RE if amp else n.IRRELEVANT_QUERY_RE
+    for key, val in views:
+        key = key.lower()
+        if rx.match(key):
+            return True
+        c = n.IRRELEVANT_QUERY_COMBOS.get(key)
+        if c is not None:
+            if callable(c):
+                if c(val):
+                    return True
+            elif val in c:
+                return True
+        if amp and val in n.AMP_QUERY_COMBOS.get(key, ()):
+            return True
+        if host:
+            for d, f in n.PER_DOMAIN_QUERY_FILTERS:
+                if host.endswith(d):
+                    if f(key, val):
+                        return True
+                    break
+    return False
+
+
+def _delsub(xs, ys, droppable):
+    """ys is xs minus elements that are all droppable (order kept)"""
+    n, m = len(xs), len(ys)
+    ok = [[False] * (m + 1) for _ in range(n + 1)]
+    ok[n][m] = True
+    for i in range(n - 1, -1, -1):
+        for j in range(m, -1, -1):
+            r = False
+            if j < m and xs[i][0] == ys[j] and ok[i + 1][j + 1]:
+                r = True
+            if not r and droppable(xs[i][1]) and ok[i + 1][j]:
+                r = True
+            ok[i][j] = r
+    return ok[0][0]
+
+
+def _host_candidates(h, o):
+    """every host the Reading allows for the parsed host h"""
+    base = _decode_host(h).lower()
+    labels = base.split(".")
+    amp = o["normalize_amp"]
+
+    def irrelevant(l):
+        return bool(_IRR_LABEL.match(l)) or (amp and l.lower() == "amp")
+
+    mids = set()
+    idx = [i for i, l in enumerate(labels[:-1]) if irrelevant(l)] if o["strip_irrelevant_subdomains"] else []
+    idx = idx[:12]
+    for bits in itertools.product([False, True], repeat=len(idx)):
+        drop = set(i for i, b in zip(idx, bits) if b)
+        mids.add(".".join(l for i, l in enumerate(labels) if i not in drop))
+    out = set(mids)
+    if amp:
+        for m_ in mids:
+            if m_.startswith("amp-"):
+                out.add(_decode_host(m_[4:]))
+    return out
+
+
+_INSEG = "\ue000"  # a '/' that was escaped inside a segment (decoded %2F): not a separator
+
+
+def _enc_seg(b):
+    return b.decode("latin-1").replace("/", _INSEG)
+
+
+def _resolved_paths(path):
+    """the resolved path: dot segments (however escaped) and empty segments resolved, each
+    segment percent-decoded (bytes shown as latin-1 text, a decoded '/' kept apart from the
+    separators), the trailing slash kept.  When the path ends with a dot segment (`/a/b/..`)
+    RFC 3986 resolves it to a directory (`/a/`) while normpath-style resolution gives `/a`:
+    both are accepted (the reading that demands less)."""
+    segs, trailing = cc.resolve_segments(path)
+    if not segs:
+        return ["/" if path else ""]
+    body = "/" + "/".join(_enc_seg(x) for x in segs)
+    last = path.rsplit("/", 1)[-1].replace("%2E", ".").replace("%2e", ".")
+    if last in (".", ".."):
+        return [body, body + "/"]
+    return [body + ("/" if trailing else "")]
+
+
+def _enc_path(path):
+    return "/".join(_enc_seg(_pct(x)) for x in path.split("/"))
+
+
+_AMP_CUT = _re.compile(r"(?:\.amp(?=\.html$)|\.amp/?$|(?<=/)amp/?$)", _re.I)
+
+
+def _path_candidates(R, o):
+    """everything the Reading allows: R minus at most an AMP marker, an index page, the root
+    slash, trailing slashes — the cuts in any order (closure)"""
+    import os.path
+
+    S = {R}
+    for _ in range(4):
+        T = set(S)
+        for x in S:
+            if o["normalize_amp"]:
+                m = _AMP_CUT.search(x)
+                if m:
+                    T.add(x[: m.start()] + x[m.end():])
+            if o["strip_index"]:
+                head, sep, last = x.rpartition("/")
+                if os.path.splitext(last)[0] in ("index", "default"):
+                    T.add(head)
+            if x == "/":
+                T.add("")
+            if o["strip_trailing_slash"]:
+                T.add(x.rstrip("/"))
+        if T == S:
+            break
+        S = T
+    return S
+
+
 def oracle(case):
     if case["kind"] != "url":
         return None
-    from ural import normalize_url
+    from urllib.parse import urlsplit
+
+    from ural import normalize_url, infer_redirection
+    from ural.facebook import is_facebook_url
+    from ural.youtube import is_youtube_url
 
     url = _url(case)
     o = nc.full_opts(case["opts"])
+    tag = "normalize_url(%r, %r)" % (url, case["opts"])
     try:
-        out = normalize_url(url, **o)
+        out_t, out_s = nc.real_both(url, o)
     except Exception as e:  # noqa
-        return "normalize_url(%r, %r) raised %s: %s" % (url, case["opts"], type(e).__name__, e)
+        return "%s raised %s: %s" % (tag, type(e).__name__, e)
+    # the (redirection-resolved, cleaned) input, parsed with the stdlib
+    try:
+        u = infer_redirection(url) if o["infer_redirection"] else url
+    except Exception as e:  # noqa
+        return None  # C15's business
+    c = _CTRL.sub("", u).strip()
+    had_proto = bool(_PROTO.match(c))
+    ensured = c if had_proto else "http://" + c
+    if o["platform_aware"]:
+        try:
+            if is_facebook_url(ensured) or is_youtube_url(ensured):
+                return None  # partial: the platform branch may rewrite the URL
+        except Exception:  # noqa
+            return None
+    try:
+        r = urlsplit(ensured)
+        in_user, in_pass, in_host, in_port = r.username, r.password, r.hostname, r.port
+    except ValueError:
+        if out_s != url or out_t != url:
+            return "%s = %r / %r: an unparseable URL must be returned unchanged" % (tag, out_s, out_t)
+        return None
+    if isinstance(out_t, str):
+        return "%s returned the string %r for unsplit=False although the input parses" % (tag, out_t)
+    # ---- scheme ----
+    want_scheme = r.scheme if (had_proto and not o["strip_protocol"]) else ""
+    if out_t.scheme != want_scheme:
+        return "%s: scheme %r, expected %r" % (tag, out_t.scheme, want_scheme)
+    # ---- authority ----
+    try:
+        a = urlsplit("//" + out_t.netloc)
+        out_user, out_pass, out_host, out_port = a.username, a.password, a.hostname, a.port
+        reparse = True
+    except ValueError:
+        reparse = False
+    if reparse:
+        if o["strip_authentication"]:
+            if out_user or out_pass:
+                return "%s: userinfo %r:%r kept although strip_authentication" % (tag, out_user, out_pass)
+        else:
+            if _pct(out_user or "") != _pct(in_user or "") or _pct(out_pass or "") != _pct(in_pass or ""):
+                return "%s: userinfo %r:%r is not the input's %r:%r" % (tag, out_user, out_pass, in_user, in_pass)
+        want_port = None if in_port in (80, 443) else in_port
+        if out_port != want_port:
+            return "%s: port %r, expected %r" % (tag, out_port, want_port)
+        if not in_host:
+            if out_host:
+                return "%s: host %r out of no host" % (tag, out_host)
+        elif in_host.isascii() or nc.in_model_alphabet(in_host):
+            cands = _host_candidates(in_host, o)
+            # SplitResult.hostname lower-cases; compare that way
+            if (out_host or "") not in set(x.lower() for x in cands) and (out_host or "") not in cands:
+                return "%s: host %r is not the input host %r minus whole irrelevant labels / a leading 'amp-' (allowed: %s)" % (
+                    tag, out_host, in_host, sorted(cands)[:6])
+    # ---- path ----
+    if r.path == "" or r.path.startswith("/"):
+        Rs = _resolved_paths(r.path)
+        R = Rs[-1]
+        got = _enc_path(out_t.path)
+        if not any(got in _path_candidates(x, o) for x in Rs):
+            return "%s: path %r is not the resolved input path %r minus at most an AMP marker, an index page, a trailing slash" % (
+                tag, out_t.path, R)
+    # ---- query ----
+    q = r.query
+    if o["fix_common_mistakes"] and q:
+        q = _AMP_SEP.sub("&", q)
+    # an empty item (between two '&', or a lone '?') carries nothing: ignored on both sides
+    ins = [(_dec_item(it), it) for it in _items(q) if it != ("", None)] if q else []
+    outs = [_dec_item(it) for it in _items(out_t.query) if it != ("", None)] if out_t.query else []
+    host_for_filter = in_host
+
+    def droppable(raw):
+        return _irrelevant_item(raw, o["normalize_amp"], host_for_filter)
+
+    if o["sort_query"]:
+        # sub-multiset whose complement is irrelevant
+        pool = list(ins)
+        for it in outs:
+            for k, (d, raw) in enumerate(pool):
+                if d == it:
+                    del pool[k]
+                    break
+            else:
+                return "%s: query item %r is not an item of the input %r" % (tag, it, r.query)
+        # several equal decoded items may differ as written: a dropped one must be droppable in some matching;
+        # demand only that every leftover *decoded* item has a droppable spelling among the input's
+        for d, raw in pool:
+            if not any(droppable(raw2) for d2, raw2 in ins if d2 == d):
+                return "%s: query item %r was dropped although it is not irrelevant" % (tag, raw)
+    else:
+        if not _delsub(ins, outs, droppable):
+            return "%s: query %r is not the input's %r minus irrelevant items, in order" % (tag, out_t.query, r.query)
+    # ---- fragment ----
+    fin, fout = _pct(r.fragment), _pct(out_t.fragment)
+    if o["strip_fragment"] is False:
+        if fout != fin:
+            return "%s: fragment %r is not the input's %r" % (tag, out_t.fragment, r.fragment)
+    elif o["strip_fragment"] is True:
+        if fout != b"":
+            return "%s: fragment %r kept although strip_fragment=True" % (tag, out_t.fragment)
+    elif fout not in (b"", fin):
+        return "%s: fragment %r is neither dropped nor the input's %r" % (tag, out_t.fragment, r.fragment)
     return None
 
 
 def nontrivial(case):
     if case["kind"] != "url":
         return None
-    return lib.jd([_url(case), case["opts"]])
+    from ural import normalize_url
+
+    url = _url(case)
+    try:
+        out = nc.real_both(url, case["opts"])[1]
+    except Exception:  # noqa
+        return lib.jd([url, case["opts"]])
+    if out == url:
+        return None
+    return lib.jd([url, case["opts"]])
 
 
 def classify(case):
     if case["kind"] == "fn":
         return ["fn:" + case["op"]["f"]]
-    return ["url"]
+    url = _url(case)
+    o = nc.full_opts(case["opts"])
+    labs = ["url"]
+    for k in nc.ALL_OPTS:
+        if o[k] != nc.DEFAULTS[k]:
+            labs.append("%s=%s" % (k, o[k]))
+    try:
+        pr = nc.prepare(url, o)
+    except Exception:  # noqa
+        return labs + ["prepare-raised"]
+    if pr["resolved"] != url:
+        labs.append("redirect-resolved")
+    if pr["platform_fired"]:
+        labs.append("platform-branch-fired")
+    p = cc.parse(pr["final"])
+    if p is None:
+        return labs + ["unparseable"]
+    h = p["hostname"] or ""
+    if not h:
+        labs.append("no-host")
+    if any(_IRR_LABEL.match(l) or l == "amp" for l in h.split(".")[:-1]):
+        labs.append("host:irrelevant-label")
+    if h.startswith("amp-"):
+        labs.append("host:amp-")
+    if "xn--" in h:
+        labs.append("host:punycode")
+    if p["port"] is not None:
+        labs.append("port:default" if p["port"] in (80, 443) else "port:other")
+    if p["username"] or p["password"]:
+        labs.append("userinfo")
+    if _AMP_CUT.search(p["path"]):
+        labs.append("path:amp-marker")
+    last = p["path"].rsplit("/", 1)[-1]
+    if last.split(".")[0] in ("index", "default"):
+        labs.append("path:index")
+    if p["path"].endswith("/") and len(p["path"]) > 1:
+        labs.append("path:trailing-slash")
+    if p["query"]:
+        labs.append("query")
+        if _AMP_SEP.search(p["query"]):
+            labs.append("query:&amp;")
+    if p["fragment"]:
+        labs.append("fragment:routing" if p["fragment"][0] in "/!" else "fragment:plain")
+    return labs
